@@ -83,6 +83,18 @@ func getCorpus(seed uint64) (*corpusTree, error) {
 		}
 		return os.WriteFile(p, []byte(src), 0o644)
 	}
+	if seed%6 == 3 {
+		// many structurally identical functions in two packages: together with the
+		// crowded signature bucket a scan of this tree yields well over 1000 alerts
+		sh := gogen.NewShape(gogen.NewRand(seed^0xa4), 10)
+		for _, pk := range []string{"army1", "army2"} {
+			var fs []gogen.Func
+			for i := 0; i < 8; i++ {
+				fs = append(fs, gogen.Func{Name: fmt.Sprintf("Army%s%02d", strings.ToUpper(pk[4:]), i), Shape: sh})
+			}
+			c.tree.Files = append(c.tree.Files, gogen.File{Rel: pk + "/a.go", Pkg: pk, Src: gogen.RenderFile(pk, fs, false, false), Funcs: fs})
+		}
+	}
 	if err := write("go.mod", c.tree.GoMod("./depmod")); err != nil {
 		return nil, err
 	}
@@ -187,6 +199,28 @@ func (c *corpusTree) ensureDBs() error {
 		sort.Strings(union)
 		for _, i := range idxs {
 			sigs[i].IdentifyingFeatures.StringPatterns = union
+		}
+	}
+	if seed%6 == 3 {
+		// the army's signature first: the crowded bucket below copies sigs[0]
+		for _, path := range all {
+			if !strings.HasSuffix(path, "army1/a.go") {
+				continue
+			}
+			res, err := LoadAndFingerprint(RealFileSystem{}, path)
+			if err != nil {
+				return fmt.Errorf("corpus %d: fingerprint %s: %w", seed, path, err)
+			}
+			for _, fr := range res {
+				if fn := fr.GetSSAFunction(); fn != nil && strings.HasPrefix(ShortFunctionName(fr.FunctionName), "Army") {
+					if topo := topology.ExtractTopology(fn); topo != nil {
+						sg := detection.IndexFunction(topo, "sig_army", "generated", "HIGH", "gen")
+						sg.ID = "G-ARMY"
+						sigs = append([]detection.Signature{sg}, sigs...)
+						break
+					}
+				}
+			}
 		}
 	}
 	if seed%3 == 0 && len(sigs) > 0 {
